@@ -43,7 +43,8 @@ Definition table_framer (T : ftable) : framer Z := {|
 
 (* ---------------------------------------------------------------- cases *)
 
-Inductive beh := BFull | BExc | BNothing | BPartial | BGarbage | BWrongUnit | BStale | BLate | BOSError | BClose | BOther.
+Inductive beh := BFull | BExc | BNothing | BPartial | BGarbage | BWrongUnit | BStale | BLate | BOSError | BClose | BOther
+| BWrongThenOwn.   (* a complete frame of another unit, then the own exception reply, in the same burst *)
 
 Record txn := {
   x_req : req; x_script : list tev;
@@ -132,6 +133,7 @@ Fixpoint spec_answer (budget : nat) (roe roi : bool) (bs : list beh) : option bo
                   | O => None end
       else None
   | BWrongUnit :: t => if roi then match budget with S k => spec_answer k roe roi t | O => None end else None
+  | BWrongThenOwn :: _ => if roi then None else Some false   (* with retry_on_invalid the client may also retransmit *)
   | _ :: _ => None
   end.
 
@@ -154,7 +156,8 @@ Definition c08_txn (c : cfg) (x : txn) : bool :=
   | RReply m => paired c x m && existsb (msg_eqb m) (x_delivered x)
   | _ => true
   end
-  && expected_ok c x (match x_behs x with [] => Some true | BFull :: _ => Some true | BExc :: _ => Some false | _ => None end).
+  && expected_ok c x (match x_behs x with [] => Some true | BFull :: _ => Some true | BExc :: _ => Some false
+                               | BWrongThenOwn :: _ => if c_roi c then None else Some false | _ => None end).
 
 (* C13 on one transaction *)
 Definition c13_txn (c : cfg) (x : txn) : bool :=
